@@ -26,6 +26,9 @@ CHECKS = {
  "C15": ("exploration", "runtime monitoring: exhaustive method x lifecycle-state matrix executed under recover() with a model oracle before/after",
          "The finite matrix of invalid calls (Tx, Page and queue methods x receiver states) is enumerated completely; each cell runs after sampled PRNG prefix histories under recover(); oracle: no panic, returns, documented error kind, transaction view and committed state unchanged (model differential, continuing+committing, reopen). Exhaustive over cells, sampled over prefixes.",
          "DESIGN.md 4 (C15), Appendix A", SIM),
+ "C08": ("fault_enumeration", "runtime monitoring: fault-plan injection on the simulated disk + model oracle after every transaction + lock-state hook + reopen rule computed from the op log",
+         "Each case injects one fault plan (kind x call index from a dry run x burst x mode) into a generated history; monitors: no panic, Commit==nil implies no failed write/sync in its window, read transactions keep seeing the last successful commit, locks idle, failed Open releases the path lock, fresh transactions commit once faults stop, reopen shows the last success or the attempt whose only failure was its final sync. Sampled (quick) to near-complete per short history (thorough) enumeration of call indices.",
+         "DESIGN.md 4 (C08)", SIM + "; two genuine defects are recorded in known_findings.json (post-durable remap failure, recycled pages of a failed-final-sync attempt) and reported as KNOWN-FINDING"),
  "C03": ("exploration", "runtime monitoring: model-based differential execution on a simulated disk with controlled writer stalls (+race detector slice)",
          "Real txfile code is driven by PRNG-generated transaction programs on a simulated disk; a sequential page model is compared in a read transaction after every transaction end, on every in-transaction read and after reopen, while a gate stalls the background writer so that several transactions' page writes share one writer batch. Held-on-explored-executions assurance; right level because the property quantifies over histories and writer timings that cannot be enumerated.",
          "DESIGN.md 4 (C03)", SIM),
